@@ -65,13 +65,14 @@ fn run(sim: &Sim, cfg: &RunCfg) -> RunOut {
     sim.choose_policy();
     sim.st().hot = vec!["sent", "send", "frontend.node.lock", "backend_req.inner.lock", "gpu_backend.node.lock", "recv"];
     let kind = cfg.index % 3;
+    let deep = cfg.tier == Tier::Thorough;
     let (ncallers, need_reply, reply_ack, plans, holds) = sim.with_w(|t| {
-        let n = t.range(2, 3) as usize;
+        let n = t.range(2, if deep { 4 } else { 3 }) as usize;
         let need_reply = t.chance(2, 3);
         let reply_ack = t.chance(2, 3);
         let mut plans: Vec<Vec<Op>> = Vec::new();
         for c in 0..n {
-            let k = t.range(1, 3);
+            let k = t.range(1, if deep { 5 } else { 3 });
             let mut v = Vec::new();
             for j in 0..k {
                 let tag = (c as u32) * 8 + j as u32;
